@@ -69,14 +69,14 @@ Helper files: JSV/Proofs/ResTot.lean, ResBase.lean, ResNoPanic.lean (invariant `
 
     The hypothesis cannot be dropped: see `resolve_panic_reachable` below. -/
 theorem resolve_no_panic_partial (env : Go.Env) (fuel : Nat) (root : NodeId) (base : String)
-    (h : Go.RInv.docsDisjoint env root = true) : Go.resolve env fuel root base ≠ .panic :=
-  Go.RInv.resolve_ne_panic env fuel root base h
+    (h : Go.RTot.docsDisjoint env root = true) : Go.resolve env fuel root base ≠ .panic :=
+  Go.RTot.resolve_ne_panic env fuel root base h
 
 /-- no hypothesis is needed without a Loader -/
 theorem resolve_no_panic_no_loader (env : Go.Env) (fuel : Nat) (root : NodeId) (base : String)
     (h : env.loader = none) : Go.resolve env fuel root base ≠ .panic := by
   apply resolve_no_panic_partial
-  unfold Go.RInv.docsDisjoint Go.RInv.docRoots
+  unfold Go.RTot.docsDisjoint Go.RTot.docRoots
   rw [h]
   simp
 
@@ -86,11 +86,11 @@ theorem resolve_no_panic_no_loader (env : Go.Env) (fuel : Nat) (root : NodeId) (
     one document, checkStructure and resolveURIs meet every schema once. -/
 theorem resolve_no_fuel (env : Go.Env) (fuel : Nat) (root : NodeId) (base : String)
     (h : fuel ≥ (env.loader.getD []).length + 1) : Go.resolve env fuel root base ≠ .fuel :=
-  Go.RInv.resolve_ne_fuel env fuel root base h
+  Go.RTot.resolve_ne_fuel env fuel root base h
 
 /-- both together -/
 theorem resolve_total_partial (env : Go.Env) (fuel : Nat) (root : NodeId) (base : String)
-    (hd : Go.RInv.docsDisjoint env root = true) (hf : fuel ≥ (env.loader.getD []).length + 1) :
+    (hd : Go.RTot.docsDisjoint env root = true) (hf : fuel ≥ (env.loader.getD []).length + 1) :
     Go.resolve env fuel root base = .err ∨ ∃ rs, Go.resolve env fuel root base = .ok rs :=
   (NoPF_iff _).1 ⟨resolve_no_panic_partial env fuel root base hd, resolve_no_fuel env fuel root base hf⟩
 
@@ -139,8 +139,8 @@ theorem resolve_no_panic_false :
   fun H => H pxEnv 5 0 "http://a/r" resolve_panic_reachable
 
 /-- the hypothesis of `resolve_no_panic_partial` is what fails: documents 0 and 6 share schema 2 -/
-example : Go.RInv.docsDisjoint pxEnv 0 = false := by decide +kernel
-example : Go.RInv.docNodes pxEnv 0 = [0, 1, 2] ∧ Go.RInv.docNodes pxEnv 6 = [6, 2] := by decide +kernel
+example : Go.RTot.docsDisjoint pxEnv 0 = false := by decide +kernel
+example : Go.RTot.docNodes pxEnv 0 = [0, 1, 2] ∧ Go.RTot.docNodes pxEnv 6 = [6, 2] := by decide +kernel
 
 /-! ### non-vacuity: cyclic documents, nil documents
 
@@ -152,7 +152,7 @@ def cyEnv : Go.Env :=
   { st := cyStore, reOk := fun _ => true,
     loader := some [("http://x/a.json", .doc 0), ("http://x/b.json", .doc 1)] }
 
-example : Go.RInv.docsDisjoint cyEnv 0 = true := by decide +kernel
+example : Go.RTot.docsDisjoint cyEnv 0 = true := by decide +kernel
 /-- A resolved under its own URI: A → B → (A: cached); the stated fuel (2 table entries + 1) gives a value -/
 example : ((Go.resolve cyEnv 3 0 "http://x/a.json").bind fun rs =>
       .ok (rs.log, rs.infos.map fun e => (e.1, e.2.resolvedRef))) =
@@ -172,7 +172,7 @@ def nilEnv : Go.Env :=
   { st := cyStore, reOk := fun _ => true, loader := some [("http://x/b.json", .nilDoc)] }
 
 example : (Go.resolve nilEnv 2 0 "").verdict = some false := by decide +kernel
-example : Go.RInv.docsDisjoint nilEnv 0 = true := by decide +kernel
+example : Go.RTot.docsDisjoint nilEnv 0 = true := by decide +kernel
 /-- a Loader that fails, a missing Loader, a dangling child pointer (nil subschema), a malformed `$ref`: errors -/
 example : (Go.resolve { nilEnv with loader := some [("http://x/b.json", .fail)] } 2 0 "").verdict = some false := by
   decide +kernel
